@@ -486,7 +486,7 @@ class StepLimit(Exception):
 
 
 class Interp:
-    def __init__(self, g, text, pyglobals=None, step_limit=2_000_000):
+    def __init__(self, g, text, pyglobals=None, step_limit=150_000):
         self.g = g
         self.text = text
         self.rules = g.ruledict()
@@ -862,6 +862,7 @@ class Interp:
         count = 0
         dangling = False
         while True:
+            iter_start = p
             r = self.ev(e, p, env)
             if r is None:
                 if count and p != end:
@@ -877,6 +878,8 @@ class Interp:
                 break
             saw = True
             p = r[1]
+            if p == iter_start:
+                raise RefError('separated list iterates without progress')
             if trailer:
                 end = p
                 if keep:
